@@ -44,6 +44,22 @@ def rtask(script, tmpdir, tag, x=None):
         elif op == 'raise_if':          # ['raise_if', [xs], excname]
             if x in step[1]:
                 raise EXC[step[2]](x, 'boom')
+        elif op in ('exit_if', 'kill_if') and x not in step[1]:
+            pass                        # ['exit_if'|'kill_if', [xs], status]
+        elif op == 'exit_if':
+            _append(os.path.join(tmpdir, 'exec.log'),
+                    'die %s %d %.6f' % (t, pid, time.monotonic()))
+            os._exit(step[2])
+        elif op == 'kill_if':
+            resource.setrlimit(resource.RLIMIT_CORE, (0, 0))
+            try:
+                signal.signal(step[2], signal.SIG_DFL)
+            except (OSError, ValueError):
+                pass
+            _append(os.path.join(tmpdir, 'exec.log'),
+                    'die %s %d %.6f' % (t, pid, time.monotonic()))
+            os.kill(pid, step[2])
+            time.sleep(30)
         elif op == 'exit':
             _append(os.path.join(tmpdir, 'exec.log'),
                     'die %s %d %.6f' % (t, pid, time.monotonic()))
